@@ -715,7 +715,7 @@ def run_shard(spec, seed, tier):
         return res
     cases = _strategies()
     n_ecus = 4
-    n = 200 if tier == "quick" else 1500
+    n = 300 if tier == "quick" else 1500
 
     def body(case):
         cfg = case["cfg"]
